@@ -85,6 +85,7 @@ func funcKernel(rel, fn, leanName, params, resultTy string, sp Spec) func() stri
 		fd := mustFunc(rel, fn)
 		t := &tr{sp: sp, file: parseFile(rp(rel))}
 		t.prepare(fd)
+		fd, t = t.unwrap(fd)
 		body := t.block(fd.Body.List, "none", "  ")
 		return fmt.Sprintf("/-- generated from %s func %s -/\ndef %s %s : %s :=\n  %s\n", rel, fn, leanName, params, resultTy, body)
 	}
